@@ -68,6 +68,16 @@ class Canon(ast.NodeTransformer):
             node.args[0] = node.args[0].args[0] if node.args[0].args else node.args[0]
         return node
 
+    def visit_BinOp(self, node: ast.BinOp):
+        self.generic_visit(node)
+        # set difference: A - (B | C)  ->  A - B - C
+        if isinstance(node.op, ast.Sub) and isinstance(node.right, ast.BinOp) and isinstance(node.right.op, ast.BitOr) \
+                and any(isinstance(x, ast.Set) or (isinstance(x, ast.Call) and isinstance(x.func, ast.Name) and x.func.id in ("set", "frozenset"))
+                        for x in (node.right.left, node.right.right)):
+            inner = ast.BinOp(left=node.left, op=ast.Sub(), right=node.right.left)
+            return self.visit_BinOp(ast.BinOp(left=inner, op=ast.Sub(), right=node.right.right))
+        return node
+
     def visit_Invert(self, node):
         return node
 
